@@ -120,9 +120,18 @@ Definition key_names (t : table_def) : list string :=
 Definition fk_names (t : table_def) : list string := map fk_name (create_fks (t_name t) (t_constraints t)).
 Definition derived_collision (s : schema) : bool :=
   (existsb (fun t => has_dup (key_names t)) s || has_dup (flat_map fk_names s))%bool.
-(* in the baseline already (the believed catalog then holds two objects of one name), or after some action *)
+(* in the baseline already (the believed catalog then holds two objects of one name), or after some action, or the plan
+   adds the same derived name twice to one table (a constraint declared twice in the model: apply_action keeps one
+   copy, the planner emits two AddConstraint actions, the second CREATE INDEX / ADD CONSTRAINT is a duplicate) *)
+Definition added_name (a : action) : list string :=
+  match a with
+  | AddConstraint t (CUnique n cols) => [t +++ "." +++ build_unique_constraint_name t cols n]
+  | AddConstraint t (CIndex n cols) => [t +++ "." +++ build_index_name t cols n]
+  | AddConstraint t (CForeignKey n cols _ _ _ _) => [build_foreign_key_name t cols n]
+  | _ => []
+  end.
 Definition known_C04_derived_name_collision (s : schema) (acts : list action) : bool :=
-  (derived_collision s || along (fun s a => derived_collision (step s a)) s acts)%bool.
+  (derived_collision s || along (fun s a => derived_collision (step s a)) s acts || has_dup (flat_map added_name acts))%bool.
 
 (* ---- explicit CHECK names are per table in the model, per schema in MySQL ---- *)
 Definition check_names (t : table_def) : list string :=
@@ -191,6 +200,28 @@ Definition p_reference_added_later (s : schema) (a : action) : bool :=
   end.
 Definition known_C04_reference_added_later := along p_reference_added_later.
 
+(* ---- C01-shadowed-inline-declaration on MySQL: replay re-normalises the table after AddColumn and promotes the
+   column's inline foreign_key / unique / index / primary_key to a table constraint of the baseline, but ADD COLUMN
+   creates none of them; they reach the database only if an EQUAL AddConstraint follows in the plan.  When the model
+   shadows the inline declaration by a different table-level constraint (e.g. a named foreign key on the same column)
+   the planner emits only that one, and the promoted constraint stays in the baseline for ever ---- *)
+Definition new_constraints (s : schema) (t : string) (a : action) : list table_constraint :=
+  filter (fun k => negb (contains_constraint k (constraints_of s t))) (constraints_of (step s a) t).
+Definition adds_later (t : string) (k : table_constraint) (rest : list action) : bool :=
+  existsb (fun x => match x with
+                    | AddConstraint t' k' => (String.eqb t' t && constraint_eqb k' k)%bool
+                    | _ => false
+                    end) rest.
+Fixpoint known_C04_inline_orphan (s : schema) (acts : list action) : bool :=
+  match acts with
+  | [] => false
+  | a :: r =>
+      (match a with
+       | AddColumn t _ _ => existsb (fun k => negb (adds_later t k r)) (new_constraints s t a)
+       | _ => false
+       end || known_C04_inline_orphan (step s a) r)%bool
+  end.
+
 (* order = order of the "classifier" fields looked up by checks/mysqlrun.py *)
 Definition known_classifiers : list (schema -> list action -> bool) :=
-  [known_C04_autoinc_lost; known_C04_check_missing; known_C04_drop_before_unreference; known_C04_drop_fk_column; known_C04_composite_member_drop; known_C04_autoinc_key_removed; known_C04_rename_drift; known_C04_fk_drop_leaves_index; known_C04_derived_name_collision; known_C04_check_name_scope; known_C04_key_needed_by_fk; known_C04_last_column_drop; known_C04_autoinc_not_added; known_C04_fk_lost_by_ref_name; known_C04_reference_added_later].
+  [known_C04_autoinc_lost; known_C04_check_missing; known_C04_drop_before_unreference; known_C04_drop_fk_column; known_C04_composite_member_drop; known_C04_autoinc_key_removed; known_C04_rename_drift; known_C04_fk_drop_leaves_index; known_C04_derived_name_collision; known_C04_check_name_scope; known_C04_key_needed_by_fk; known_C04_last_column_drop; known_C04_autoinc_not_added; known_C04_fk_lost_by_ref_name; known_C04_reference_added_later; known_C04_inline_orphan].
